@@ -5,6 +5,7 @@ mod common;
 mod hc;
 mod c06;
 mod c15;
+mod c19;
 mod zeep;
 
 use common::Tier;
@@ -35,6 +36,7 @@ fn run(id: &str, tier: Tier) -> i32 {
     match id {
         "C06" => c06::run(tier),
         "C15" => c15::run(tier),
+        "C19" => c19::run(tier),
         _ => {
             eprintln!("unknown property {id}");
             2
@@ -48,6 +50,7 @@ fn replay(file: &str) -> i32 {
     match v["property"].as_str().unwrap_or("") {
         "C06" => c06::replay(&v["case"]),
         "C15" => c15::replay(&v["case"]),
+        "C19" => c19::replay(&v["case"]),
         p => {
             eprintln!("no replay for property {p}");
             2
